@@ -95,6 +95,10 @@ struct ClassDef
     size_t backgroundSize;  // size of the raw image handed to makeFromRaw
     std::vector<FieldDef> fields;
     std::vector<ReservedDef> reserved;
+    // typed ASAM payload classes only: change the object's run-time type tag through one of the three public setters of
+    // the Payload base (legal calls; the typed accessors are members of the static class and must not care). Returns a
+    // description of the call.
+    std::function<std::string(Subject&, uint64_t)> retag;
 };
 
 inline uint64_t beWord(const Bytes& r, size_t off, size_t width)
@@ -204,6 +208,19 @@ ClassDef finishPayload(Tab<P>& t, const char* name, size_t stdSize, size_t extra
     t.def.backgroundSize = stdSize + extra;
     t.def.makeDefault = [] { return std::unique_ptr<Subject>(new Subj<P>(payloadRaw<P>)); };
     t.def.makeFromRaw = [](const Bytes& b) { return std::unique_ptr<Subject>(new Subj<P>(payloadRaw<P>, b.data(), b.size())); };
+    t.def.retag = [](Subject& x, uint64_t rnd) -> std::string {
+        P& o = static_cast<Subj<P>&>(x).obj;
+        using MT = ASAM::CMP::CmpHeader::MessageType;
+        static const uint8_t mts[] = {1, 2, 3, 0xFF, 0, 4};
+        const uint8_t mt = mts[(rnd >> 8) % 6];
+        const uint8_t raw = (rnd >> 16) % 3 ? static_cast<uint8_t>(1 + (rnd >> 24) % 8) : static_cast<uint8_t>(rnd >> 32);
+        switch (rnd % 3)
+        {
+            case 0: o.setRawPayloadType(raw); return "setRawPayloadType(" + std::to_string(raw) + ")";
+            case 1: o.setMessageType(static_cast<MT>(mt)); return "setMessageType(" + std::to_string(mt) + ")";
+            default: o.setType(ASAM::CMP::PayloadType(static_cast<MT>(mt), raw)); return "setType(" + std::to_string(mt) + "," + std::to_string(raw) + ")";
+        }
+    };
     return t.def;
 }
 
